@@ -9,7 +9,7 @@ cd "$(dirname "$0")/.." || exit 0
 verif="$(pwd)"; prop="$1"; repo="$2"; outdir="$3"
 ev="$outdir/evidence/$prop.json"
 [ -f "$ev" ] || exit 0
-seeds=$(ls -d seeded/$prop-* 2>/dev/null)
+seeds=$(ls -d seeded/$prop-* 2>/dev/null | sort -r | head -3)   # at most three (the most recent rounds first): bounds the thorough run
 [ -n "$seeds" ] || exit 0
 tmp=$(mktemp -d /tmp/fvc-selftest-XXXXXX); tmpout=$(mktemp -d /tmp/fvc-selftest-out-XXXXXX)
 trap 'rm -rf "$tmp" "$tmpout"' EXIT
